@@ -385,6 +385,22 @@ def replay_state(st: dict, out: dict, want_event: bool, want_rejects: bool = Tru
                               "checks": ["wf", "meta", "coh", "denbag", "denlist"], "case": case})
 
 
+def nested_compound(t) -> bool:
+    """A chain one of whose operands is itself a bare compound select: SQLAlchemy
+    renders `(SELECT .. UNION ALL SELECT ..) UNION ALL ..`, which SQLite cannot
+    parse (environment limit, not a property of the library)."""
+    if isinstance(t, dict):
+        if t.get("k") == "bin" and t["op"].get("o") == "chain":
+            for x in (t["l"], t["r"]):
+                if x.get("k") == "sel" and x["skip"].get("k") == "bin" and x["skip"]["op"].get("o") == "chain" \
+                        and x["a"] == 0 and x["b"] == -1 and not x["sort"]:
+                    return True
+        return any(nested_compound(v) for v in t.values())
+    if isinstance(t, list):
+        return any(nested_compound(v) for v in t)
+    return False
+
+
 def _compound_flags(t) -> list:
     bad = []
     if isinstance(t, dict):
